@@ -19,8 +19,10 @@ Three searches, one oracle (CPython executes the very text Griffe visits, then `
    *follow* a decorated (async) definition, so that state carried from one definition to the next is observed inside one
    self-contained case.
 
-Every annotated signature is additionally rendered with string-literal annotations in a module without PEP 563 (CPython then
-reports the string's content); every lambda Griffe reports is also re-evaluated from its rendered text and must have the
+Every annotated signature is additionally rendered with string-literal annotations, once in a module without PEP 563 (CPython
+then reports the string's content) and once under PEP 563 enabled after a docstring / comments / other __future__ imports
+(CPython then reports the literal's source text); property accessors are also stacked with label-producing decorators
+(abstractmethod, cache, lru_cache) or written as `async def`; every lambda Griffe reports is also re-evaluated from its rendered text and must have the
 signature of CPython's lambda. Failures are re-checked alone in a process forked before the shard visited anything: only
 failures that reproduce there are reported with their case (see _Pristine).
 """
@@ -76,7 +78,7 @@ EXHAUSTIVE_NOTE = {
 BUDGET_S = {"quick": 85.0, "thorough": 1500.0}
 
 DEF_RENDERINGS = ("def", "async-def", "method", "staticmethod", "classmethod")
-QUOTED_RENDERING = "def-string-annotations"
+QUOTED_RENDERINGS = ("def-string-annotations", "def-string-annotations-pep563")
 LAMBDA_RENDERINGS = ("lambda-attr", "lambda-class-attr", "lambda-default")
 
 
@@ -144,9 +146,26 @@ def render_sig_module(m: dict) -> tuple[str, bool]:
     return "\n".join(lines) + "\n", lambdas
 
 
-def render_quoted_module(m: dict) -> str:
-    """The same parameter list with every annotation written as a string literal, *without* PEP 563: CPython then reports the
-    string's content, which is what Griffe reports for a string annotation it could parse."""
+# module headers that enable PEP 563 other than by a first-line `from __future__ import annotations`
+PEP563_HEADERS = (
+    '"""Module docstring."""\nfrom __future__ import annotations\n',
+    '# comment\n\n"""Docstring."""\n\nfrom __future__ import annotations\n',
+    "from __future__ import division\nfrom __future__ import annotations\n",
+    '"""Doc."""\nfrom __future__ import generator_stop\nfrom __future__ import annotations\n',
+    "#!/usr/bin/env python\n# -*- coding: utf-8 -*-\nfrom __future__ import annotations\n",
+    '"""Doc."""\nfrom __future__ import division, annotations\n',
+    "from __future__ import annotations, division\n",
+)
+
+
+def pep563_header(m: dict) -> str:
+    return PEP563_HEADERS[(m["po"] + 2 * m["pk"] + 3 * m["ko"] + m["ann"] + m["npd"] + m["va"]) % len(PEP563_HEADERS)]
+
+
+def render_quoted_module(m: dict, header: str = "") -> str:
+    """The same parameter list with every annotation written as a string literal. Without PEP 563 (header ""), CPython reports
+    the string's content, which is what Griffe reports for a string annotation it could parse; under PEP 563 (a header from
+    PEP563_HEADERS) CPython reports the source text of the string literal, quotes included, and so must Griffe."""
     parts = []
     seen_star = False
     for i, (name, kind, ann, dflt) in enumerate(S.spec(m)):
@@ -167,7 +186,7 @@ def render_quoted_module(m: dict) -> str:
             if kind == "po" and i == m["po"] - 1:
                 parts.append("/")
     ret = f" -> {S.RETURN_TEXT!r}" if S.has_return(m) else ""
-    return f"def fq({', '.join(parts)}){ret}: ...\n"
+    return f"{header}def fq({', '.join(parts)}){ret}: ...\n"
 
 
 def lambda_fails(where: str, what: str, expr, pyfunc) -> list[Fail]:
@@ -221,6 +240,10 @@ def check_sig(m: dict) -> list[Fail]:
         qns = cpython_exec(qcode)
         qmod = griffe_visit(qcode)
         fails += function_fails("def-string-annotations", qcode.strip(), member(qmod, "fq"), qns["fq"])
+        pcode = render_quoted_module(m, pep563_header(m))
+        pns = cpython_exec(pcode)
+        pmod = griffe_visit(pcode)
+        fails += function_fails("def-string-annotations-pep563", repr(pcode), member(pmod, "fq"), pns["fq"])
     if lambdas:
         la = member(mod, "la")
         cla = cls and member(cls, "la")
@@ -428,6 +451,12 @@ def _prop_stats(classes: list[dict]) -> tuple[bool, set]:
             elif it["t"] in ("get", "set", "del"):
                 accs.setdefault(it["p"], []).append(it["t"])
                 order.append(it["p"])
+                decos, is_async = G.ACCESSOR_EXTRAS[it.get("x", 0)]
+                role = {"get": "getter", "set": "setter", "del": "deleter"}[it["t"]]
+                if decos:
+                    labels.add(f"prop:{role}+{decos[0]}")
+                if is_async:
+                    labels.add(f"prop:async-{role}")
         runs = sum(1 for i, n in enumerate(order) if i == 0 or order[i - 1] != n)
         if runs > len(accs):
             labels.add("prop:interleaved")
@@ -675,7 +704,7 @@ def _run_shard(ctx, pristine, order_dependent) -> None:
             text = f"({S.render_params(m)}){S.render_returns(m)}"
             nt = S.nontrivial(m)
             feats = ["sig:" + f for f in S.features(m)]
-            renderings = DEF_RENDERINGS + (LAMBDA_RENDERINGS if ann == 0 else (QUOTED_RENDERING,))
+            renderings = DEF_RENDERINGS + (LAMBDA_RENDERINGS if ann == 0 else QUOTED_RENDERINGS)
             for r in renderings:
                 sample = None
                 if r == "def" and idx % 1009 == 17 and len(ctx.res.samples) < 2:
